@@ -243,7 +243,9 @@ def run(ctx):
     else:
         items = [(b"", 4)] + [(p, 2) for p in CK_PREFIXES]
         par = 1
-    badck, nck = cksum_compare(ctx, "cksum_c16", items, parallel=par)
+    if any(not r["closed"] for r in rows):
+        items = []          # a lexer that does not close its channel would hang the checksum runs
+    badck, nck = cksum_compare(ctx, "cksum_c16", items, parallel=par) if items else ([], 0)
     for pfx, d in badck[:3]:
         w = cksum_bisect(ctx, pfx, d)
         violation({"kind": "lexer-model-vs-real-lexer", "explain": "checksum over the exhaustive scope differs",
